@@ -6,6 +6,39 @@ From Verif Require Export Base.Prelude Base.FsC Base.WcC.
 Local Open Scope string_scope.
 Local Open Scope list_scope.
 
+(** Micro-correspondence of the file-system primitives of Base/FsC.v with the real
+    operating system: the harness issues real std::fs calls and records what happened. *)
+Inductive pcall :=
+| PcCreateDir (p : path) | PcCreateNew (p : path) | PcRemoveFile (p : path)
+| PcRemoveDir (p : path) | PcSymlink (p : path) (t : string) | PcLstat (p : path).
+
+Definition pres_code (r : pres) : N :=
+  match r with
+  | POk => 0 | PExists => 1 | PNotFound => 2 | PIsDir => 3 | PNotDir => 4 | PNotEmpty => 5
+  | PUnsafe => 99
+  end%N.
+Definition lres_code (r : lres) : N :=
+  match r with
+  | LNone => 10 | LSome (EFile _ _) => 11 | LSome (ESym _) => 12 | LSome EDir => 13 | LUnsafe => 99
+  end%N.
+
+Definition run_pcall (w : world) (c : pcall) : N * world :=
+  match c with
+  | PcCreateDir p => let '(r, w') := p_create_dir w p in (pres_code r, w')
+  | PcCreateNew p => let '(r, w') := p_create_new w p in (pres_code r, w')
+  | PcRemoveFile p => let '(r, w') := p_remove_file w p in (pres_code r, w')
+  | PcRemoveDir p => let '(r, w') := p_remove_dir w p in (pres_code r, w')
+  | PcSymlink p t => let '(r, w') := p_symlink w p t in (pres_code r, w')
+  | PcLstat p => let '(r, w') := p_lstat w p in (lres_code r, w')
+  end.
+
+Fixpoint replay_pcalls (w : world) (l : list (pcall * N)) : bool * world :=
+  match l with
+  | [] => (true, w)
+  | (c, code) :: r => let '(code', w') := run_pcall w c in
+                      if N.eqb code code' then replay_pcalls w' r else (false, w')
+  end.
+
 Record case := mk_case {
   c_disk0 : fs;                       (* listing of the workspace before the checkout *)
   c_states0 : list (path * bool);     (* recorded file states before: path, placeholder? *)
@@ -17,6 +50,9 @@ Record case := mk_case {
   c_disk1 : fs;                       (* listing after *)
   c_states1 : list (path * bool);     (* file states after *)
   c_outside_ok : bool;                (* everything outside the workspace root is unchanged *)
+  c_prims : list (pcall * N);         (* primitive calls issued by the harness on the real disk
+                                         afterwards (only on safe paths), with the result code *)
+  c_disk2 : fs;                       (* listing after those calls *)
 }.
 
 (** The old tree tracks a file at [p] and the checkout changes or removes it. *)
@@ -100,7 +136,8 @@ Definition paths_ok_b (d : list dentry) : bool :=
   forallb (fun e => match d_path e with [] => false | _ => true end) d.
 
 (** detail: 1 diff order, 2 result, 3 disk, 4 file states, 5 trace has an unsafe call,
-    6 the recorded inputs do not satisfy the hypotheses of the theorems *)
+    6 the recorded inputs do not satisfy the hypotheses of the theorems, 7 a primitive call
+    behaved differently on the real disk *)
 Definition check_case_rn (rn : list name) (c : case) : N :=
   let d := diff_fs (matches (c_sparse c)) (c_t1 c) (c_t2 c) in
   let o := run_update rn (c_disk0 c) (c_states0 c) d in
@@ -110,6 +147,9 @@ Definition check_case_rn (rn : list name) (c : case) : N :=
   let ok_states := states_eqb (o_states o) (c_states1 c) in
   let ok_trace := forallb ev_safe (o_trace o) in
   let ok_pre := wf_fs_b (c_disk0 c) && anchor_b rn (c_disk0 c) && paths_ok_b (c_diff c) in
+  let '(ok_codes, w2) := replay_pcalls (mkW (c_disk1 c) []) (c_prims c) in
+  let ok_prims := ok_codes && fs_eqb (w_fs w2) (c_disk2 c) in
   let detail := (if negb ok_diff then 1 else if negb ok_res then 2 else if negb ok_fs then 3
-                 else if negb ok_states then 4 else if negb ok_trace then 5 else 6)%N in
-  verdict (ok_diff && ok_res && ok_fs && ok_states && ok_trace && ok_pre) (okb rn c) false detail.
+                 else if negb ok_states then 4 else if negb ok_trace then 5
+                 else if negb ok_pre then 6 else 7)%N in
+  verdict (ok_diff && ok_res && ok_fs && ok_states && ok_trace && ok_pre && ok_prims) (okb rn c) false detail.
